@@ -429,6 +429,12 @@ Restart ==
   /\ s' = [FreshMem(s) EXCEPT !.phase = "run", !.mpc = s.mpc + 1, !.inc = @ + 1]
   /\ UNCHANGED wl
 
+(* between two runs the user removes the success marker of a job *)
+RmDone(n) ==
+  /\ s.phase \in {"dead", "closed"} /\ Op.op = "rmdone" /\ Op.n = n /\ s.done[n]
+  /\ s' = [s EXCEPT !.done[n] = FALSE, !.bodyends[n] = 0, !.mpc = @ + 1]
+  /\ UNCHANGED wl
+
 (* ------------------------------------------------------------------ *)
 (* Terminal states                                                      *)
 (* ------------------------------------------------------------------ *)
@@ -449,7 +455,7 @@ GoodEnd ==
 Terminated == GoodEnd /\ UNCHANGED vars
 
 Next ==
-  \/ \E n \in Names : UserSubmit(n) \/ JobWaitCall(n)
+  \/ \E n \in Names : UserSubmit(n) \/ JobWaitCall(n) \/ RmDone(n)
   \/ \E i \in Insts : Register(i) \/ UserStart(i) \/ SubmitReturn(i) \/ TaskStep(i) \/ JobWaitReturn(i)
   \/ \E i \in Insts : \E o \in Insts \cup Tokens : DepCheck(i, o) \/ Notify(i, o)
   \/ \E i \in Insts : \E kind \in {"lockin", "lockout", "lockout_abort", "procwait", "adoptwait", "donehandler"} :
@@ -481,6 +487,7 @@ NoBodyAfterDone == [][NoBodyAfterDoneA]_vars
 NoLaunchWhenDoneAtSubmitA ==
   \A i \in Insts : (s'.pc[i] = "lockout" /\ s.pc[i] = "lockin") => ~s.doneAtBegin[i]
 NoLaunchWhenDoneAtSubmit == [][NoLaunchWhenDoneAtSubmitA]_vars
+SuccessfulBodyAtMostOnce == \A n \in Names : s.bodyends[n] <= 1
 RegistryDedup ==
   \A i, j \in Insts :
      (i # j /\ NameOf(i) = NameOf(j) /\ s.regres[i] = "new" /\ s.regres[j] = "new"
